@@ -146,7 +146,7 @@ impl<T, N: ArrayLength> GenericArrayIter<T, N> {
         md = re.search(r'let GenericArrayIter \{ ([^}]*) \} = this;', body)
         if not md:
             raise ex.Unsupported('%s: destructuring of self not found (rule R-trait)' % name)
-        pre = ''
+        pre, copied = '', []
         rest = body[:md.start()] + '@@D@@' + body[md.end():]
         for fld in [x.strip() for x in md.group(1).split(',') if x.strip() and x.strip() != '..']:
             mm = re.match(r'(ref mut |ref )?(\w+)$', fld)
@@ -159,6 +159,7 @@ impl<T, N: ArrayLength> GenericArrayIter<T, N> {
                 rest = re.sub(r'\b' + x + r'\.', 'this.' + x + '.', rest)
             else:
                 pre += 'let %s = this.%s; ' % (x, x)
+                copied.append(x)
         stats['R-trait'] = 1
         body = rest.replace('@@D@@', pre)
         body = ex.apply_rules(body, [
@@ -167,10 +168,13 @@ impl<T, N: ArrayLength> GenericArrayIter<T, N> {
             ('R-view', r'this\.array\.get_unchecked\(([^.()]+(?:\.\w+)?)\s*\.\.\s*([^()]+?)\)', r'this.array.range(\1, \2)'),
             ('R-forget', r'mem::forget\(this\);', 'this.array.forget();'),
         ], stats)
-        ml = re.search(r'remaining\.iter\(\)\.' + name + r'\(init, \|acc, src\| \{ (.*?) f\(acc, value\) \}\)', body)
-        if not ml:
-            raise ex.Unsupported('%s: `remaining.iter().%s(init, |acc, src| {..; f(acc, value)})` not found (rule R-iter)' % (name, name))
-        inner = ml.group(1)
+        # optional `.enumerate()`: the closure then also receives the element's position in `remaining` (counted from its start)
+        ml = re.search(r'remaining\.iter\(\)(\.enumerate\(\))?\.' + name + r'\(init, \|acc, (?:src|\((\w+), src\))\| \{ (.*?) f\(acc, value\) \}\)', body)
+        if not ml or bool(ml.group(1)) != bool(ml.group(2)):
+            raise ex.Unsupported('%s: `remaining.iter()[.enumerate()].%s(init, |acc, src| {..; f(acc, value)})` not found (rule R-iter)' % (name, name))
+        inner = ml.group(3)
+        if ml.group(2):
+            inner = 'let %s: usize = %s; ' % (ml.group(2), '__cnt - 1 - __k' if back else '__k') + inner
         inner, k1 = re.subn(r'ptr::read\(src\)', 'this.array.take(src)', inner)
         if k1 != 1:
             raise ex.Unsupported('%s: closure does not read its element with ptr::read(src)' % name)
@@ -184,7 +188,7 @@ impl<T, N: ArrayLength> GenericArrayIter<T, N> {
                 'forall|j: int| 0 <= j < __cnt - __k ==> this.remaining()[j] == rem0[__k + j],')
         loop = ('{ let ghost rem0 = this.remaining(); let ghost i0 = this.index; let ghost b0 = this.index_back; '
                 'let __cnt = remaining.hi - remaining.lo; let mut acc = init; let mut __k: usize = 0; '
-                'while __k < __cnt invariant this.wf(), remaining.lo == i0, remaining.hi == b0, __cnt == rem0.len(), i0 + __cnt == b0, __k <= __cnt, '
+                'while __k < __cnt invariant ' + ''.join('%s == %s, ' % (x, {'index': 'i0', 'index_back': 'b0'}[x]) for x in copied if x in ('index', 'index_back')) + 'this.wf(), remaining.lo == i0, remaining.hi == b0, __cnt == rem0.len(), i0 + __cnt == b0, __k <= __cnt, '
                 + idx_inv + ' ' + keep +
                 ' f.log().len() == __k, forall|j: int| 0 <= j < __k ==> (#[trigger] f.log()[j]).1 == ' + elem + ', '
                 '__k == 0 ==> acc == init, __k > 0 ==> f.log()[0].0 == init && acc == f.log().last().2, '
